@@ -8,3 +8,5 @@ done
 git -C /repo checkout -- . ; git -C /repo status --short | head -3
 # rebuild the harness against the restored tree so that no stale (mutated) binary is left behind
 ( cd /verif/harness && GOFLAGS=-mod=mod GOPROXY=off GOSUMDB=off GOTOOLCHAIN=local go build -o bin/trace ./cmd/trace )
+# evidence written while /repo was mutated must not stay: restore the committed files
+git -C /verif checkout -- evidence/ 2>/dev/null
